@@ -10,3 +10,18 @@ Inductive outcome :=
 
 Definition prop_C14 (o : outcome) : bool :=
   match o with OOk | OReported => true | _ => false end.
+
+(* One generation run through the library entry points inside a longer-lived process (a watcher, a
+   test-suite, a consumer that generates several projects): what is observed is whether the call
+   timed out, panicked (recovered by the caller), returned an error, and whether every artifact of
+   the requested mode exists afterwards. *)
+Definition job_outcome (timed_out panicked has_error artifacts_written : bool) : outcome :=
+  if timed_out then OHang
+  else if panicked then OCrash
+  else if has_error then OReported
+  else if artifacts_written then OOk
+  else OSilent.
+
+(* A process that runs several generations back to back: the property is about EVERY run of the
+   sequence, whatever the earlier ones were (rejected, successful) and left behind. *)
+Definition prop_C14_seq (os : list outcome) : bool := forallb prop_C14 os.
